@@ -29,7 +29,8 @@ EPS = 2.0 ** -52
 INF = float("inf")
 
 nontrivial_rule("C14", "Non-trivial: a value exactly on a class edge, or an irregular / one-class / wider-than-source binning, or an extra index "
-                       "level (collective sub-checks: both orientations from > to and from < to present, or an extra index level, or a "
+                       "level, or a source histogram listed in non-ascending class order, or a recorder histogram taken more than once in a "
+                       "call history (collective sub-checks: both orientations from > to and from < to present, or an extra index level, or a "
                        "Series operand).")
 assumptions("C14", [
     "load values are finite, |x| <= 1e6, either 0 or |x| >= 1e-100 (no subnormal arithmetic), no negative zeros; 'range' of a "
@@ -649,17 +650,27 @@ def collective_histogram(case, ctx):
                     raise Violation("marginal %r exceeds the range histogram %r" % (marg, got), bucket="histogram:marginal_exceeds")
 
 
-# --------------------------------------------------------------------------- 5. recorder histogram
+# --------------------------------------------------------------------------- 5. recorder histogram (call histories)
 @st.composite
 def _recorder_cases(draw, tier):
-    n = draw(st.integers(0, 14))
     val = draw(st.sampled_from([st.integers(-6, 6).map(float), st.integers(-48, 48).map(lambda i: i / 8.0),
                                 st.floats(-6.0, 6.0, allow_nan=False).map(_norm)]))
-    fr = draw(st.lists(val, min_size=n, max_size=n))
-    to = draw(st.lists(val, min_size=n, max_size=n))
-    spec = draw(st.sampled_from(["count", "count2", "edges", "edges2", "single"]))
+    detector = draw(st.sampled_from([None, None, "fkm", "fkm", "threepoint", "fourpoint"]))
+    nsteps = draw(st.integers(1, 4))
+    steps = []
+    for _ in range(nsteps):
+        via = "record_values" if detector is None else draw(st.sampled_from(["process", "process", "record_values"]))
+        if via == "record_values":
+            n = draw(st.sampled_from([0, 1, 2, 3, 4, 5, 6, 7, 8, 3, 5]))
+            steps.append({"via": via, "from": draw(st.lists(val, min_size=n, max_size=n)), "to": draw(st.lists(val, min_size=n, max_size=n))})
+        else:
+            # chunks of at least two samples (empty chunks are the subject of C01, not of the histogram accounting)
+            steps.append({"via": via, "signal": draw(st.lists(val, min_size=4, max_size=16))})
+    spec = draw(st.sampled_from(["count", "count", "default", "count2", "edges", "edges2", "single"]))
     if spec == "count":
         bins = draw(st.integers(1, 5))
+    elif spec == "default":
+        bins = None
     elif spec == "count2":
         bins = [draw(st.integers(1, 5)), draw(st.integers(1, 5))]
     elif spec == "edges":
@@ -668,40 +679,18 @@ def _recorder_cases(draw, tier):
         bins = [[float(round(x * 8) / 8) for x in draw(_edges(lo=-6, hi=0, nmax=5))] for _ in range(2)]
     else:
         bins = [[-6.0, 6.0], [-6.0, 6.0]]
-    chunks = draw(st.integers(1, 3))
-    return {"from": fr, "to": to, "spec": spec, "bins": bins, "chunks": chunks}
+    return {"detector": detector, "steps": steps, "spec": spec, "bins": bins,
+            "interleave": draw(st.sampled_from([True, True, False])), "numpy_first": draw(st.booleans())}
 
 
-@subcheck("C14", "recorder_histogram", strategy=_recorder_cases, quick=1000, thorough=40000,
-          doc="LoopValueRecorder.histogram(bins) (loops recorded in 1-3 chunks): from/to class counts sum to the number of loops inside the "
-              "covered rectangle, each class between strictly-inside and closure counts; collective == recorded loops")
-def recorder_histogram(case, ctx):
-    from pylife.stress.rainflow.recorders import LoopValueRecorder
-    fr, to = case["from"], case["to"]
-    n = len(fr)
-    rec = LoopValueRecorder()
-    k = case["chunks"]
-    cuts = [round(n * i / k) for i in range(k + 1)]
-    for a, b in zip(cuts[:-1], cuts[1:]):
-        rec.record_values(np.array(fr[a:b], dtype=float), np.array(to[a:b], dtype=float))
-    coll = rec.collective
-    if list(coll["from"]) != fr or list(coll["to"]) != to:
-        raise Violation("recorder collective differs from the recorded loops", bucket="recorder:collective")
-    spec, bins = case["spec"], case["bins"]
-    ctx.label("bins:" + spec, "empty" if n == 0 else "nonempty")
-    if n == 0 and spec in ("count", "count2"):
-        ctx.label("empty_with_count")
-    # numpy.histogram2d semantics are documented for the recorder: a two-element sequence means [nx, ny], so a
-    # single sequence of edges needs >= 3 edges; [array, array] may have two edges each
-    if spec in ("edges2", "single"):
-        bins = [sorted(set(b)) if len(set(b)) >= 2 else [0.0, 1.0] for b in bins]
-    elif spec == "edges":
-        bins = sorted(set(bins))
-        if len(bins) < 3:
-            bins = [-6.0, 0.0, 6.0]
-    if n == 0 and spec in ("count", "count2"):
-        ctx.skip("empty recorder with a bin count: numpy cannot derive edges (no cycles to account for)")
-    h = rec.histogram(bins)
+def _RF():
+    from .. import build
+    build.load_kernel("plain")
+    import pylife.stress.rainflow as RF
+    return RF
+
+
+def _check_recorder_histogram(h, fr, to, spec, when, ctx):
     if list(h.index.names) != ["from", "to"]:
         raise Violation("recorder histogram index levels %r" % (list(h.index.names),), bucket="recorder:levels")
     fiv, tiv = h.index.get_level_values("from"), h.index.get_level_values("to")
@@ -710,15 +699,76 @@ def recorder_histogram(case, ctx):
     inside = sum(1 for a, b in zip(fr, to) if fe[0] <= a <= fe[-1] and te[0] <= b <= te[-1])
     if any(a in fe for a in fr) or any(b in te for b in to) or spec == "single":
         ctx.nontrivial()
+    if spec in ("count", "count2", "default") and inside != len(fr):
+        # a number of bins lets numpy span the classes over all loops: every loop recorded so far is covered
+        raise Violation("recorder histogram(%s) %s covers from %r..%r / to %r..%r, but loops recorded so far are from %r, to %r"
+                        % (spec, when, fe[0], fe[-1], te[0], te[-1], fr, to), bucket="recorder:not_covered")
     if float(h.sum()) != inside:
-        raise Violation("recorder histogram(%s) sums to %r, %d loops lie inside the covered rectangle (from %r, to %r, edges %r / %r)"
-                        % (spec, float(h.sum()), inside, fr, to, fe, te), bucket="recorder:total")
+        raise Violation("recorder histogram(%s) %s sums to %r, %d of the %d loops recorded so far lie inside the covered rectangle "
+                        "(from %r, to %r, edges %r / %r)" % (spec, when, float(h.sum()), inside, len(fr), fr, to, fe, te),
+                        bucket="recorder:total")
     for (fi, ti), c in zip(zip(fiv, tiv), h.values):
         lo = sum(1 for a, b in zip(fr, to) if fi.left < a < fi.right and ti.left < b < ti.right)
         hi = sum(1 for a, b in zip(fr, to) if fi.left <= a <= fi.right and ti.left <= b <= ti.right)
         if not (lo <= c <= hi):
-            raise Violation("recorder histogram class from %r / to %r holds %r loops, model: between %d and %d" % (fi, ti, c, lo, hi),
+            raise Violation("recorder histogram class from %r / to %r %s holds %r loops, model: between %d and %d" % (fi, ti, when, c, lo, hi),
                             bucket="recorder:class")
+
+
+@subcheck("C14", "recorder_histogram", strategy=_recorder_cases, quick=1000, thorough=40000,
+          doc="call histories on a LoopValueRecorder: loops arrive in 1-4 steps via record_values() and/or a detector (FKM, three-, four-point) "
+              "processing chunks; histogram(bins) / histogram_numpy(bins) (count, default, [nx, ny], edges, [edges, edges]) taken after every "
+              "step or only at the end: class counts sum to the number of loops recorded SO FAR inside the covered rectangle (all of them for "
+              "a bin count), each class between strictly-inside and closure counts; collective == recorded loops")
+def recorder_histogram(case, ctx):
+    RF = _RF()
+    rec = RF.LoopValueRecorder()
+    det = {None: None, "fkm": RF.FKMDetector, "threepoint": RF.ThreePointDetector, "fourpoint": RF.FourPointDetector}[case["detector"]]
+    det = det(recorder=rec) if det is not None else None
+    spec, bins = case["spec"], case["bins"]
+    # numpy.histogram2d semantics are documented for the recorder: a two-element sequence means [nx, ny], so a
+    # single sequence of edges needs >= 3 edges; [array, array] may have two edges each
+    if spec in ("edges2", "single"):
+        bins = [sorted(set(b)) if len(set(b)) >= 2 else [0.0, 1.0] for b in bins]
+    elif spec == "edges":
+        bins = sorted(set(bins))
+        if len(bins) < 3:
+            bins = [-6.0, 0.0, 6.0]
+    ctx.label("bins:" + spec, "detector:%s" % case["detector"], "interleaved" if case["interleave"] else "histogram_at_end")
+    given_fr, given_to, only_given = [], [], True
+    taken = 0
+    nsteps = len(case["steps"])
+    for k, step in enumerate(case["steps"]):
+        if step["via"] == "record_values":
+            rec.record_values(np.array(step["from"], dtype=float), np.array(step["to"], dtype=float))
+            given_fr += step["from"]; given_to += step["to"]
+        else:
+            det.process(np.array(step["signal"], dtype=float))
+            only_given = False
+        fr, to = [float(x) for x in rec.values_from], [float(x) for x in rec.values_to]
+        coll = rec.collective
+        if list(coll["from"]) != fr or list(coll["to"]) != to or (only_given and (fr != given_fr or to != given_to)):
+            raise Violation("recorder collective differs from the recorded loops", bucket="recorder:collective")
+        if not (case["interleave"] or k == nsteps - 1):
+            continue
+        if len(fr) == 0 and spec in ("count", "count2", "default"):
+            continue        # numpy cannot derive edges from no data (and there are no cycles to account for)
+        when = "after step %d of %d (%s)" % (k + 1, nsteps, step["via"])
+        if case["numpy_first"]:
+            hn = rec.histogram_numpy() if spec == "default" else rec.histogram_numpy(bins)
+        h = rec.histogram() if spec == "default" else rec.histogram(bins)
+        if case["numpy_first"] and float(hn[0].sum()) != float(h.sum()):
+            raise Violation("histogram_numpy and histogram disagree %s: %r vs %r" % (when, float(hn[0].sum()), float(h.sum())),
+                            bucket="recorder:numpy_vs_pandas")
+        _check_recorder_histogram(h, fr, to, spec, when, ctx)
+        taken += 1
+    if taken == 0:
+        # in the domain, but nothing to histogram: no loop recorded and a bin count (numpy cannot derive edges from no data);
+        # the collective clause above was still asserted
+        ctx.label("no_loops_no_histogram")
+    if taken >= 2:
+        ctx.label("histogram_taken_repeatedly")
+        ctx.nontrivial()
 
 
 # --------------------------------------------------------------------------- 6. rebin
@@ -766,7 +816,7 @@ def _rebin_cases(draw, tier):
         if len(e) == 2 and draw(st.integers(0, 3)) > 0:
             e = [e[0], (e[0] + e[1]) / 2.0, e[1]]
         src.append(e)
-        k1, t1 = draw(_target(e, ["finer", "irregular", "coarser", "wider", "identical", "count", "one_class", "finer", "irregular"]))
+        k1, t1 = draw(_target(e, ["finer", "irregular", "coarser", "wider", "identical", "count", "one_class", "count", "irregular"]))
         # second target for the composition law
         if isinstance(t1, list) and len(t1) >= 2:
             if k1 in ("finer", "identical"):
@@ -789,7 +839,10 @@ def _rebin_cases(draw, tier):
     drop = draw(st.integers(1, len(src[0]) - 3)) if gaps else None
     return {"dims": dims, "source": src, "target1": tg1, "target2": tg2, "kinds": kinds, "counts": counts,
             "closed": draw(st.sampled_from(["right", "right", "left"])), "nan_default": draw(st.sampled_from([False, False, True])),
-            "drop_class": drop, "binning_as_multiindex": draw(st.booleans())}
+            "drop_class": drop, "binning_as_multiindex": draw(st.booleans()),
+            # a histogram is a mapping class -> count: its rows may be listed in any order (sort_values, concat, ...)
+            "row_order": draw(st.sampled_from(["ascending", "ascending", "descending", "by_count", "permuted", "permuted"])),
+            "row_perm": draw(st.permutations(list(range(ncls))))}
 
 
 def _ii(edges, closed, name=None):
@@ -802,7 +855,7 @@ def one_interval_class(binning):
 
 
 @subcheck("C14", "rebin_conserves", strategy=_rebin_cases, quick=1500, thorough=50000,
-          doc="rebin_histogram (1-D and 2-D; target identical / one class / count / finer / coarser / wider / irregular): total conserved "
+          doc="rebin_histogram (1-D and 2-D, source rows ascending / descending / by count / permuted; target identical / one class / count / finer / coarser / wider / irregular): total conserved "
               "(rtol 1e-12) when the target covers the source, identity for the same binning, rebin(rebin(h, b1), b2) == rebin(h, b2) "
               "(1e-9) where exact (b1 refines the source classes, or b2 coarsens b1)")
 def rebin_conserves(case, ctx):
@@ -817,6 +870,16 @@ def rebin_conserves(case, ctx):
     if case["drop_class"] is not None:
         h = h.drop(h.index[case["drop_class"]])
         ctx.label("source_with_gap")
+    order = case.get("row_order", "ascending")
+    if order == "descending":
+        h = h.iloc[::-1]
+    elif order == "by_count":
+        h = h.sort_values(ascending=False, kind="stable")
+    elif order == "permuted":
+        h = h.iloc[[i for i in case["row_perm"] if i < len(h)]]
+    if len(h) > 1 and not h.index.equals(h.sort_index().index):
+        ctx.label("source_rows_not_ascending")
+        ctx.nontrivial()
     h0 = h.copy()
     total = float(h.sum())
 
